@@ -60,7 +60,7 @@ def signature(b):
 def inputs_of(rec):
     """the input fields of a record (what replay needs)"""
     keys = ("f", "N", "T", "via", "min", "sup", "dim", "gsize", "gen", "c", "size", "kind", "nsize", "igen", "rv",
-            "fa", "fb", "sizes", "gens", "co", "fgen", "q", "o", "d")
+            "fa", "fb", "sizes", "gens", "co", "fgen", "q", "o", "d", "ext")
     return {k: rec[k] for k in keys if k in rec}
 
 PID = "C08"
@@ -130,7 +130,7 @@ def judge_light(ctx, module, cfg, trace_path, nchunks=48, par=8, xmx="1200m", ti
     return sorted(bad, key=lambda b: b["l"])
 
 
-def judge_file(ctx, path, what, rc, out):
+def judge_file(ctx, path, what, rc, out, judge=True):
     lines, tail = vlib.check_trace_file(path)
     crash = [l for l in lines if l.startswith('{"e":"crash"')]
     lines = [l for l in lines if not l.startswith('{"e":"crash"')]
@@ -164,7 +164,7 @@ def judge_file(ctx, path, what, rc, out):
             ctx.reject("C08:%s:%s" % (op, kind), "%s during %s (%s): %s" % (kind, op, what, san.group(1) if san else out[-300:]), payload)
         with open(path, "w") as f:
             f.write("\n".join(lines) + ("\n" if lines else ""))
-    if not lines:
+    if not lines or not judge:
         return lines
     bad = judge_light(ctx, JUDGE, JUDGE_CFG, path)
     ctx.evaluations += len(lines)
@@ -179,6 +179,12 @@ def judge_file(ctx, path, what, rc, out):
         if not ins:
             continue
         b = dict(b, why=ins)
+        if "HARNESS-PRECONDITION" in b["why"] and lines[b["l"] - 1].startswith('{"f":"obj"') and (
+                ctx.violations or ctx.extra.get("observations")):
+            # the observed state of a grid object does not cover its own size(): after an operation of the same run was
+            # already rejected / observed this is a corrupted object, not a bug of the generator (Clarification 2)
+            observe(ctx, "obj_" + json.loads(lines[b["l"] - 1])["op"], ["object-state-not-observable-after-an-earlier-rejection"], lines[b["l"] - 1])
+            continue
         if "HARNESS-PRECONDITION" in b["why"]:
             raise vlib.Infra("harness record outside its own input space at line %d of %s: %s" % (b["l"], path, lines[b["l"] - 1][:300]))
         rec = json.loads(lines[b["l"] - 1])
@@ -280,6 +286,18 @@ def corruptions(recs):
             mut(r, lambda x: x["cells"][1].__setitem__(-1, x["cells"][1][-1] + 1), "cell-value")
             mut(r, lambda x: x["gsize"].__setitem__(0, x["gsize"][0] + 1), "result-size")
             cnt[key] = cnt.get(key, 0) + 1
+        elif f == "offset_at" and len(r["offs"]) >= 3:
+            mut(r, lambda x: x["offs"].__setitem__(1, x["offs"][2]), "offset-value")
+            mut(r, lambda x: x["offs"].__setitem__(len(x["offs"]) - 1, x["offs"][-1] % 65536), "offset-value")
+            cnt[key] = cnt.get(key, 0) + 1
+        elif f in ("clamped_min", "clamped_sup", "clamped_sup_signed") and r.get("ext"):
+            # round 3 (extreme coordinates): the first probe is the smallest value of the type
+            key = f + "_ext"
+            cur[0] = key
+            if cnt.get(key, 0) < PER_KEY and any(e > 0 for e in r.get("size", [1])):
+                mut(r, lambda x: x["rs"][0].__setitem__(0, 2), f)
+                mut(r, lambda x: x["rs"][4].__setitem__(0, 2), f)
+                cnt[key] = cnt.get(key, 0) + 1
         elif f in ("clamped_min", "clamped_sup", "clamped_sup_signed") and any(e > 0 for e in r.get("size", [1])):
             mut(r, lambda x: x["rs"][-1].__setitem__(0, x["rs"][-1][0] + 1), f)
             cnt[key] = cnt.get(key, 0) + 1
@@ -389,7 +407,7 @@ def sensitivity_guard(ctx, lines):
     missops = {o for o in needops - objops if "op:" + o not in touched}
     if missops:
         raise vlib.Infra("sensitivity guard: no corruptible grid-object transition for %s" % sorted(missops))
-    need = {"obj", "interp", "spiral_grid", "pos_range", "whole_range", "pos_ref_range", "whole_ref_range", "offset", "construct", "resize", "map",
+    need = {"obj", "interp", "spiral_grid", "offset_at", "pos_range", "whole_range", "pos_ref_range", "whole_ref_range", "offset", "construct", "resize", "map",
             "apply", "fill", "clamped_min", "clamped_sup", "clamped_sup_signed", "at", "in_range"}
     missing = need - kinds - touched
     if missing:
@@ -429,8 +447,18 @@ def run(ctx):
     # 2. code -> spec
     binary = build()
     tpath = os.path.join(ctx.workdir, "recorded.ndjson")
-    rc, out = vlib.run_harness(binary, ["record", tpath, ctx.tier], timeout=1600)
-    lines = judge_file(ctx, tpath, "exhaustive enumeration", rc, out)
+    # every section of the enumeration (N = 1, 2, 3, observed-only extension) in its own process: a call that kills
+    # the process (abort, undocumented exception, watchdog) ends only its section; all complete records are judged
+    rc, all_lines = 0, []
+    for sec in (1, 2, 3, 4):
+        spath_k = "%s.sec%d" % (tpath, sec)
+        rc_k, out_k = vlib.run_harness(binary, ["record", spath_k, ctx.tier, sec], timeout=1600 if thorough else 600)
+        all_lines += judge_file(ctx, spath_k, "exhaustive enumeration, section %d" % sec, rc_k, out_k, judge=False)
+        rc = rc or rc_k
+        os.unlink(spath_k)
+    with open(tpath, "w") as f:
+        f.write("".join(l + "\n" for l in all_lines))
+    lines = judge_file(ctx, tpath, "exhaustive enumeration", 0, "")
     # a walked range is one behaviour of the iterator machine; the other records are single calls
     ctx.traces_validated += sum(1 for l in lines if '"vis":' in l)
     if lines:
